@@ -518,6 +518,32 @@ func (cx *Ctx) checkInflateCases(r *Report, rule string) {
 		fn = calleeOf(del)
 		encParam = fn.Params[idx].Name()
 	}
+	// the encodings kept in a package-level table: `decode, ok := contentDecoders[encoding]`
+	if tbl := cx.encodingTable(fn, encParam); tbl != nil {
+		bad := ""
+		for k, targets := range tbl.entries {
+			switch k {
+			case "":
+			case cDeflateValue:
+				for _, t := range targets {
+					if !cx.createsDecompressor(t, 0) {
+						bad = "the decoder registered for DEFLATE (" + w.FuncKey(t) + ") does not inflate"
+					}
+				}
+			default:
+				bad = fmt.Sprintf("the table of encodings has an entry for %q, which is neither empty nor DEFLATE", k)
+			}
+		}
+		if _, has := tbl.entries[cDeflateValue]; !has && bad == "" {
+			bad = "the table of encodings has no entry for DEFLATE"
+		}
+		if !tbl.missIsError && bad == "" {
+			bad = "an identifier that is not in the table is not refused"
+		}
+		r.Check(bad == "", rule, "xml.InflateAndDecode:cases", w.FnPos(fn), fmt.Sprintf("table of %d encodings (\"\" and DEFLATE); an identifier outside it is an error", len(tbl.entries)), bad)
+		cx.checkErrPropagation(r, "R-ERR", "xml.InflateAndDecode", fn)
+		return
+	}
 	aps, ok := fx.atomPaths(fn, 4096)
 	if !ok {
 		r.Undecided(rule, "xml.InflateAndDecode", w.FnPos(fn), "too many paths")
@@ -1182,4 +1208,110 @@ func (cx *Ctx) checkRequiredContent(r *Report, k *ssoKeys, vf *VFlow) {
 			}
 		}
 	}
+}
+
+const cDeflateValue = "urn:oasis:names:tc:SAML:2.0:bindings:URL-Encoding:DEFLATE"
+
+type encTable struct {
+	entries     map[string][]*ssa.Function
+	missIsError bool
+}
+
+// encodingTable: fn looks its encoding parameter up in a package-level map of decoder functions with constant string
+// keys, filled at initialisation only: the entries, and whether a miss makes fn return a non-nil error.
+func (cx *Ctx) encodingTable(fn *ssa.Function, encParam string) *encTable {
+	w, fx := cx.W, cx.Fx
+	var lk *ssa.Lookup
+	for _, b := range fn.Blocks {
+		for _, in := range b.Instrs {
+			if l, ok := in.(*ssa.Lookup); ok {
+				if p, isP := l.Index.(*ssa.Parameter); isP && p.Name() == encParam {
+					lk = l
+				}
+			}
+		}
+	}
+	if lk == nil || !lk.CommaOk {
+		return nil
+	}
+	ld, ok := lk.X.(*ssa.UnOp)
+	if !ok {
+		return nil
+	}
+	g, ok := ld.X.(*ssa.Global)
+	if !ok || g.Pkg == nil {
+		return nil
+	}
+	// written at initialisation only
+	t := &encTable{entries: map[string][]*ssa.Function{}}
+	var mm ssa.Value
+	for _, f := range w.Funcs {
+		for _, st := range fx.info(f).stores {
+			if st.Addr == ssa.Value(g) {
+				if !isInitFunc(f) {
+					return nil
+				}
+				mm = st.Val
+			}
+		}
+		for _, b := range f.Blocks {
+			for _, in := range b.Instrs {
+				if mu, isMU := in.(*ssa.MapUpdate); isMU && !isInitFunc(f) {
+					if l2, isLd := mu.Map.(*ssa.UnOp); isLd && l2.X == ssa.Value(g) {
+						return nil
+					}
+				}
+			}
+		}
+	}
+	if mm == nil {
+		return nil
+	}
+	for _, ref := range nonDebugRefs(mm) {
+		mu, isMU := ref.(*ssa.MapUpdate)
+		if !isMU || mu.Map != mm {
+			continue
+		}
+		k, isK := constString(mu.Key)
+		if !isK {
+			return nil
+		}
+		tg, okT := fx.funcTargets(mu.Value)
+		if !okT {
+			return nil
+		}
+		t.entries[k] = tg
+	}
+	// a miss is an error: on the false edge of the ok result every return carries a certainly non-nil error
+	aps, okp := fx.atomPaths(fn, 4096)
+	if !okp {
+		return nil
+	}
+	t.missIsError = true
+	ri := fn.Signature.Results().Len() - 1
+	for i := range aps {
+		p := &aps[i]
+		miss := false
+		for _, cp := range p.Conds {
+			if ex, isEx := stripNot(cp.Cond).(*ssa.Extract); isEx && ex.Tuple == ssa.Value(lk) && ex.Index == 1 {
+				pol := cp.Pol
+				for v := cp.Cond; ; {
+					u, isU := v.(*ssa.UnOp)
+					if !isU || u.Op != token.NOT {
+						break
+					}
+					v, pol = u.X, !pol
+				}
+				if !pol {
+					miss = true
+				}
+			}
+		}
+		if miss {
+			if _, nonNil := fx.errNilness(p, fx.retVal(p, ri)); !nonNil {
+				t.missIsError = false
+			}
+		}
+	}
+	return t
 }
